@@ -153,6 +153,62 @@ def driver(lines, timeout=1800):
     return res
 
 
+
+# ---------------------------------------------------------------- parallel evaluation (fork)
+_PMAP = {}
+
+
+def _merge_stats(dst, src):
+    for k, v in src.items():
+        if isinstance(v, dict):
+            _merge_stats(dst.setdefault(k, {}), v)
+        elif isinstance(v, (int, float)) and not isinstance(v, bool):
+            dst[k] = dst.get(k, 0) + v
+        else:
+            dst.setdefault(k, v)
+
+
+def _zero_stats(st):
+    out = {}
+    for k, v in st.items():
+        if isinstance(v, dict):
+            out[k] = _zero_stats(v)
+        elif isinstance(v, (int, float)) and not isinstance(v, bool):
+            out[k] = 0
+        else:
+            out[k] = v
+    return out
+
+
+def _pmap_worker(args):
+    name, lo, hi = args
+    prop, cases = _PMAP["prop"], _PMAP["cases"]
+    if hasattr(prop, "stats"):
+        prop.stats = _zero_stats(prop.stats)
+    fn = getattr(prop, name)
+    res = [fn(c) for c in cases[lo:hi]]
+    return lo, res, getattr(prop, "stats", {})
+
+
+def pmap(prop, name, cases):
+    """[getattr(prop, name)(c) for c in cases], sharded over prop.PARALLEL forked processes; the
+    workers' `stats` counters are merged into prop.stats."""
+    procs = int(getattr(prop, "PARALLEL", 0) or 0)
+    if procs <= 1 or len(cases) < 4 * procs:
+        fn = getattr(prop, name)
+        return [fn(c) for c in cases]
+    import multiprocessing
+    _PMAP["prop"], _PMAP["cases"] = prop, cases
+    step = max(1, len(cases) // (procs * 8))
+    jobs = [(name, lo, min(lo + step, len(cases))) for lo in range(0, len(cases), step)]
+    out = [None] * len(cases)
+    with multiprocessing.get_context("fork").Pool(procs) as pool:
+        for lo, res, st in pool.imap_unordered(_pmap_worker, jobs):
+            out[lo:lo + len(res)] = res
+            if hasattr(prop, "stats"):
+                _merge_stats(prop.stats, st)
+    return out
+
 # ---------------------------------------------------------------- known findings
 def load_known(pid):
     path = os.path.join(VERIF, "KNOWN_FINDINGS.jsonl")
@@ -335,7 +391,7 @@ def run_check(prop, tier, seed, replay=None):
             answers = None
             failures.append(Failure("correspondence", None, f"driver error: {e}"))
         if answers is not None:
-            impl_all = prop.impl_all(cases) if hasattr(prop, "impl_all") else [prop.impl_lines(c) for c in cases]
+            impl_all = prop.impl_all(cases) if hasattr(prop, "impl_all") else pmap(prop, "impl_lines", cases)
             for c, (a, b), impl_out in zip(cases, spans, impl_all):
                 mo = answers[a:b]
                 if not mo and not impl_out:
@@ -360,8 +416,7 @@ def run_check(prop, tier, seed, replay=None):
     oracle_fail = []
     known_hits = {}
     n_oracle = 0
-    for c in cases:
-        res = prop._oracle_safe(c)
+    for c, res in zip(cases, pmap(prop, "_oracle_safe", cases)):
         n_oracle += 1
         if res is not None:
             desc, klass = res
